@@ -72,13 +72,13 @@ def tuples_for(shape_lens, full):
 SHAPES = {'d1': [('a', 3)], 'd2': [('p', 2), ('a', 3)], 'rec': [('t', None), ('q', 2)], 'd3': [('p', 2), ('q', 2), ('r', 2)]}
 
 
-def build_cases(shape_name, fmt, relax, api, isread, tuples, per_case=120):
+def build_cases(shape_name, fmt, relax, api, isread, tuples, per_case=120, np=1):
     """api: vars | vara | var1 | varm | varn | ivars (nonblocking + wait)"""
     dims = SHAPES[shape_name]
     cases = []
     tl = list(tuples)
     for b0 in range(0, len(tl), per_case):
-        c = Case('OOR-%s-f%d-%s-%s-%s-%d' % (shape_name, fmt, 'relax' if relax else 'strict', api, 'get' if isread else 'put', b0), 1)
+        c = Case('OOR-%s-f%d-%s-%s-%s-%d%s' % (shape_name, fmt, 'relax' if relax else 'strict', api, 'get' if isread else 'put', b0, '-np%d' % np if np > 1 else ''), np)
         c.op('*', 'env', PNETCDF_RELAX_COORD_BOUND='1' if relax else '0')
         c.op('*', 'create', f=0, path='a.nc', fmt=fmt, hints='nc_header_align_size=4;nc_var_align_size=4;nc_record_align_size=4')
         alld = [('z', 3)] + dims
@@ -117,12 +117,23 @@ def build_cases(shape_name, fmt, relax, api, isread, tuples, per_case=120):
             elif api == 'varn':
                 form = 'varn'; kw.pop('s'); kw.update(n=2, nd=len(ct), s0=[0] * len(ct), c0=[0] * len(ct), s1=st, c1=ct)
             if n == 0 or any(x < 0 for x in ct): kw['nel'] = max(n, 1)
+            who = '*' if np == 1 else np - 1
+            if np > 1:
+                # the other processes take part in the same collective call with a valid request on another variable
+                # (same API, same variable, a valid zero-length request)
+                nd_ = len(st); z = dict(f=0, v=1, coll=1, mem='int')
+                for rr in range(np - 1):
+                    if api == 'vara': c.op(rr, 'get' if isread else 'put', form='vara', s=[0] * nd_, c=[0] * nd_, **z)
+                    elif api == 'vars': c.op(rr, 'get' if isread else 'put', form='vars', s=[0] * nd_, c=[0] * nd_, st=[1] * nd_, **z)
+                    elif api == 'varm': c.op(rr, 'get' if isread else 'put', form='varm', s=[0] * nd_, c=[0] * nd_, st=[1] * nd_, imap=[1] * nd_, **z)
+                    else: c.op(rr, 'get' if isread else 'put', form='varn', n=1, nd=nd_, s0=[0] * nd_, c0=[0] * nd_, **z)
             if api in ('ivars', 'bvars'):
                 kw['nb'] = 'i' if api == 'ivars' else 'b'; kw['req'] = 0
-                lp = c.op('*', 'get' if isread else 'put', form=form, **kw)
-                lw = c.op('*', 'wait', f=0, ids=['q0'], all=1)
+                lp = c.op(who, 'get' if isread else 'put', form=form, **kw)
+                lw = c.op(who, 'wait', f=0, ids=['q0'], all=1)
             else:
-                lp = c.op('*', 'get' if isread else 'put', form=form, **kw); lw = None
+                lp = c.op(who, 'get' if isread else 'put', form=form, **kw); lw = None
+            if np > 1: c.op('*', 'barrier')
             ls = c.op(0, 'snap', path='a.nc')
             ctx.append((st, ct, sd, lp, lw, ls, (k % 80) + 1))
         c.op('*', 'close', f=0)
@@ -131,6 +142,7 @@ def build_cases(shape_name, fmt, relax, api, isread, tuples, per_case=120):
 
 
 def judge(ck, c, ctx, s0, shape, isrec, r, api, isread, relax):
+    who = c.np - 1
     text = c.text()
     if r.status != 'ok':
         ck.violation((r.status, api, first_frame(r.detail)), text, c.name + ': ' + r.detail[:600]); return
@@ -140,14 +152,14 @@ def judge(ck, c, ctx, s0, shape, isrec, r, api, isread, relax):
     numrecs = NREC
     has_stride = api in ('vars', 'varm', 'ivars', 'bvars')
     for (st, ct, sd, lp, lw, ls, tag) in ctx:
-        o = r.r(0, lp)
+        o = r.r(who, lp)
         ct_eff = [1] * len(st) if api == 'var1' else ct
         exp = expected(shape if not isrec else [None] + shape[1:], isrec, st, ct_eff, sd, isread, not relax, numrecs, has_stride)
         rc = o.rc
         posted = api in ('ivars', 'bvars')
         if posted and rc == 0:
-            st_ = r.r(0, lw).ints('st')
-            wrc = r.r(0, lw).rc
+            st_ = r.r(who, lw).ints('st')
+            wrc = r.r(who, lw).rc
             if wrc != 0 or (st_ and st_[0] != 0): rc = st_[0] if st_ and st_[0] != 0 else wrc
         ck.outcomes.add((api, isread, rc))
         desc = '%s %s start=%s count=%s stride=%s shape=%s%s' % ('get' if isread else 'put', api, st, ct_eff, sd if has_stride else None, shape, ' (record var, numrecs=%d)' % numrecs if isrec else '')
@@ -155,13 +167,14 @@ def judge(ck, c, ctx, s0, shape, isrec, r, api, isread, relax):
             cause = 'accepted' if rc == 0 else ('rejected' if 0 in exp else 'other code')
             ck.violation(('rc', ('get ' if isread else 'put ') + api, cause), text, '%s: %s returned %d, documented %s' % (c.name, desc, rc, sorted(exp))); return
         cur = bytes.fromhex(r.r(0, ls).get('hex', ''))
+        others = set()
         if rc != 0 or isread:
-            if cur != prev:
+            if any(x != y for i, (x, y) in enumerate(zip(cur, prev)) if i not in others) or len(cur) != len(prev):
                 ck.violation(('file_changed', ('get ' if isread else 'put ') + api, 'rejected or read request'), text, '%s: %s (rc=%d) changed the file' % (c.name, desc, rc)); return
         else:
             # accepted write: only bytes of the addressed elements of the target (+ numrecs field) may differ
             idx = D.region_indices([None] + shape[1:] if isrec else shape, st, ct_eff, sd if has_stride else None)
-            allowed = set(range(4, 4 + wnum))
+            allowed = set(range(4, 4 + wnum)) | others
             fcur = cdf.decode(cur, with_data=True, strict=False)
             for i in idx:
                 off = cdf.var_element_offset(fcur, 1, i)
@@ -304,6 +317,13 @@ def main(tier=None):
     allc = []
     for (sh, fmt, relax, api, isread, tl) in plan:
         for x in build_cases(sh, fmt, relax, api, isread, tl): allc.append((x, api, isread, relax))
+    # the same tuples passed by ONE process of a collective call while the others pass valid requests: a rejected request may
+    # not reach the file through the collective transfer the rejecting process still takes part in
+    for (sh, fmt, relax, api, isread, tl) in plan:
+        if api in ('ivars', 'bvars', 'var1') or fmt != fmts[0]: continue
+        for np_ in ((2, 3) if thorough else (2,)):
+            sub = tl if (thorough or sh == 'd1') else tl[::3]
+            for x in build_cases(sh, fmt, relax, api, isread, sub, np=np_): allc.append((x, api, isread, relax))
     results = runner.run_cases(b['vx'], [x[0][0] for x in allc], batch=8, timeout=600)
     nt = 0
     for ((c, ctx, s0, shape, isrec), api, isread, relax), r in zip(allc, results):
@@ -330,7 +350,7 @@ def main(tier=None):
     ck.cov['distinct_nontrivial'] = nt
     ck.cov['rule'] = ('every (start,count,stride) in {-1..len+1} x {-1..len+1} x {-1,0,1,2,len,len+1} per dimension for shapes (3), (2,3), (U,2) and a reduced grid for (2,2,2) through put/get_vars, and derived tuple sets through '
                       'var1, vara, varm, varn, iput/iget/bput+wait; strict and relaxed coordinate bound; the file is snapshot after every call: rejected, zero-length and read requests may not change a byte, accepted writes '
-                      'may change only the bytes of the addressed elements (+ the numrecs field) which must then hold the new values; every ordered pair of in-range boxes of a (6), (3,4) and (U,3) variable posted as two iput/bput requests completed by one wait_all '
+                      'may change only the bytes of the addressed elements (+ the numrecs field) which must then hold the new values; the blocking forms again with the tuple passed by one process of a 2-3 process collective call while the others pass valid requests; every ordered pair of in-range boxes of a (6), (3,4) and (U,3) variable posted as two iput/bput requests completed by one wait_all '
                       'or as the two segments of one put_varn / iput_varn (disjoint, adjacent, partially overlapping, nested): only bytes of the union may change, elements of one box hold its value, elements of both hold either')
     ck.sample(allc[0][0][0].text()[:1500])
     ck.assumptions += ['where no document orders two applicable codes (NC_ENEGATIVECNT vs NC_EEDGE / NC_ESTRIDE) either is accepted', 'larger shapes and derived buffer types for out-of-range requests are outside the bound (the property\'s random clause is not done)']
